@@ -21,7 +21,7 @@ ASSUMPTIONS = unitkit.UNITS_STUB_TEXT + [
     "completeness of the four symbol classes is re-checked on every run by an AST pass over unit_environment.py (uses of `symbol` must be membership test, table key, list element, prefix concatenation)",
 ]
 OUTSIDE = ['more than 3 units per scope, nesting deeper than 2', 'concurrent use of the process-wide tables from several threads']
-BOUNDS = {'quick': '<= 2 units per scope (4 classes x 5 kinds each), body raises or not, 4 scope shapes (with / explicit close / nested / repeated); 14 DIP texts',
+BOUNDS = {'quick': '<= 2 units per scope (4 classes x 6 kinds each), body raises or not, 4 scope shapes (with / explicit close / nested / repeated); 14 DIP texts',
           'thorough': '<= 3 units per scope'}
 EXHAUSTIVE = {'quick': True, 'thorough': True}
 PRE = '''
@@ -30,6 +30,8 @@ from scinumtools.units.settings import UNIT_STANDARD, UNIT_PREFIXES, UNIT_TYPES
 from scinumtools.units.unit_types import StandardUnitType, TemperatureUnitType
 SYMBOLS = [['qa', 'qb', 'qc'], ['m', 'g', 's'], ['ol', 'in', 'ol'], ['km', 'mmol', 'kJ']]   # per class: fresh / existing / collides through own prefixes / equals a prefixed symbol
 class MyType(StandardUnitType):
+    pass
+class MyType2(StandardUnitType):
     pass
 ORIG_TYPES = list(UNIT_TYPES)
 def pristine():
@@ -52,12 +54,13 @@ def pick(sel, n):
 def make_units(v, count):
     units = {}
     for u in range(count):
-        cls = pick(getattr(v, f'cls{u}'), 4); kind = pick(getattr(v, f'kind{u}'), 5)
+        cls = pick(getattr(v, f'cls{u}'), 4); kind = pick(getattr(v, f'kind{u}'), 6)
         sym = SYMBOLS[cls][u]
         x = getattr(v, f'x{u}')
         if kind == 0: d = {'magnitude': x, 'dimensions': [1, 0, 0, 0, 0, 0, 0, 0], 'prefixes': True if cls == 2 else False}
         elif kind == 1: d = Quantity(x, 'm')
         elif kind == 2: d = {'dimensions': [1, 0, 0, 0, 0, 0, 0, 0]}                     # malformed: no magnitude
+        elif kind == 5: d = {'dimensions': [1, 0, 0, 0, 0, 0, 0, 0], 'definition': MyType2}       # malformed (no magnitude) and carrying a conversion type that is not registered yet
         elif kind == 4: d = {'magnitude': x, 'dimensions': [1, 0, 0, 0, 0, 0, 0, 0], 'definition': TemperatureUnitType}   # a conversion type that is already registered
         else: d = {'magnitude': x, 'dimensions': [1, 0, 0, 0, 0, 0, 0, 0], 'definition': MyType, 'prefixes': ['k'] if cls == 2 else False}
         if sym in units:
@@ -202,7 +205,7 @@ def scenarios(tier, seed):
                     inp[f'cls{u}'] = 'int'
                     inp[f'kind{u}'] = 'int'
                     inp[f'x{u}'] = 'real'
-                    pre += [f'v.cls{u} >= 0', f'v.cls{u} <= 3', f'v.kind{u} >= 0', f'v.kind{u} <= 4', f'v.x{u} > 0']
+                    pre += [f'v.cls{u} >= 0', f'v.cls{u} <= 3', f'v.kind{u} >= 0', f'v.kind{u} <= 5', f'v.x{u} > 0']
                 if 'x0' not in inp:
                     inp['x0'] = 'real'
                 S.append(Scenario(f'scope/{shape}/{count}/{"raise" if raises else "return"}', SRC, inp, pre, consts={'count': count, 'shape': shape, 'body_raises': raises},
@@ -216,6 +219,10 @@ def scenarios(tier, seed):
                 ('custom unit in a failing condition', '$unit len = {x} cm\na float = 1 [len]\n  !condition ("{?} > 2 [len]")', False),
                 ('custom unit in a case expression', '$unit len = {x} cm\na float = {y} [len]\n@case ("{?a} > 1 [len]")\n  c int = 1\n@else\n  c int = 2', None),
                 ('two custom units, second definition malformed', '$unit len = {x} cm\n$unit tim = {y}\na float = 1 [len]\nb float = 1 [tim]\nb = 1 [len]', False),
+                ('second $unit line refers to an unknown unit', '$unit len = {x} cm\n$unit wid = {y} [lenght]\na float = 1 [len]', False),
+                ('second $unit line refers to an unknown plain unit', '$unit len = {x} cm\n$unit area = {y} foo2\na float = 1 [len]', False),
+                ('third $unit line built from the first two fails', '$unit len = {x} cm\n$unit tim = {y} s\n$unit spd = 2 [len]/[tom]\na float = 1 [len]', False),
+                ('second $unit line built from the first one succeeds', '$unit len = {x} cm\n$unit dbl = 2 [len]\na float = {y} [dbl]', None),
                 ('integer node with custom unit, bad later line', '$unit len = {x} cm\nk int = 3 [len]\nq qqq = 1', False)]
     S.append(Scenario('dip', DIP_SRC2, {'x': 'real', 'y': 'real'}, ['v.x > 0', 'v.y > 0'], consts={'cases': dipcases}, preamble=DIPPRE,
                       what='DIP texts with $unit lines where a later statement fails', samples=2))
